@@ -1,23 +1,29 @@
 #!/bin/bash
-# seed_matrix.sh [tier] [name-glob, default *] : apply every confirmed seeded change to /repo in turn, run the check of the
-# property it breaks, undo it, and write /verif/seeded/MATRIX.md (caught / missed, first rule that fired).
+# seed_matrix.sh [tier] [name-glob, default *] : apply every confirmed seeded change in turn, run the
+# check of the property it breaks (+ meta.also_run), undo it, and write seeded/MATRIX.md (caught /
+# missed, first rule that fired). Works on $VERIF_REPO (default /repo; must be clean) with the
+# framework in $VERIF_DIR (default /verif), so a sweep can run on scratch copies of both:
+#   git -C /repo worktree add /var/tmp/repo-matrix HEAD; rsync -a --exclude out --exclude bin /verif/ /var/tmp/verif-matrix/
+#   VERIF_DIR=/var/tmp/verif-matrix VERIF_REPO=/var/tmp/repo-matrix /var/tmp/verif-matrix/scripts/seed_matrix.sh
 TIER=${1:-quick}
 GLOB=${2:-*}
-cd /repo || exit 3
-[ -n "$(git status --porcelain)" ] && { echo "/repo not clean"; exit 3; }
-OUT=/verif/seeded/MATRIX.md
+export VERIF_DIR=${VERIF_DIR:-/verif}
+export VERIF_REPO=${VERIF_REPO:-/repo}
+cd $VERIF_REPO || exit 3
+[ -n "$(git status --porcelain)" ] && { echo "$VERIF_REPO not clean"; exit 3; }
+OUT=$VERIF_DIR/seeded/MATRIX.md
 if [ "$GLOB" = "*" ]; then
 echo "| seed | breaks | check run | result | first rule/sig that fired |" > $OUT
 echo "|---|---|---|---|---|" >> $OUT
 fi
-for d in /verif/seeded/$GLOB/; do
+for d in $VERIF_DIR/seeded/$GLOB/; do
   name=$(basename $d); [ -f $d/patch.diff ] || continue
   prop=$(python3 -c "import json;print(json.load(open('$d/meta.json'))['property'])")
   git apply --3way $d/patch.diff 2>/dev/null || git apply $d/patch.diff || { echo "| $name | $prop | - | PATCH DOES NOT APPLY | |" >> $OUT; git checkout -q -- .; continue; }
   git reset -q
   also=$(python3 -c "import json;print(' '.join(json.load(open('$d/meta.json')).get('also_run',[])))")
   for chk in $prop $also; do
-    res=$(cd /verif && TIER=$TIER ./scripts/check.sh $chk $TIER 2>&1)
+    res=$(cd $VERIF_DIR && ./scripts/check.sh $chk $TIER 2>&1)
     rule=$(echo "$res" | grep -E "^  rule=" | head -1 | sed -E 's/^  rule=([^ ]+) sig=([^ ]+).*/\1 \/ \2/')
     if echo "$res" | grep -q "^VIOLATION"; then r="CAUGHT"; else r="missed"; fi
     echo "| $name | $prop | $chk $TIER | $r | $rule |" >> $OUT
@@ -25,4 +31,4 @@ for d in /verif/seeded/$GLOB/; do
   done
   git checkout -q -- . ; git clean -fdq x app ante types cmd 2>/dev/null
 done
-cd /verif && ./scripts/check.sh C19 quick >/dev/null 2>&1  # leave bin/ built from the clean tree
+cd $VERIF_DIR && ./scripts/check.sh C19 quick >/dev/null 2>&1  # leave bin/ built from the clean tree
